@@ -77,6 +77,18 @@ def gen(seed, idx, tier):
         k = r.choice(KEYS)
         ops.append({"k": "sd", "t": 0.0, "p": 0, "ch": "m", "e": [["offer", k[0], k[1], k[2], k[3], r.choice([1, 3, INF_TTL])]]})
     t_start = r.choice([0.0, 0.0, 0.05])
+    if r.random() < 0.12 and hi > 0:
+        # everything that is watched is already offered when the discovery starts; one of the offers ends inside the
+        # initial-delay window: the first round is due for that service after all
+        seen = []
+        for f in filters[: nf - (1 if late_watch else 0)]:
+            k = next((k for k in KEYS if k[0] == f[0] and f[1] in (0xFFFF, k[1]) and f[2] in (0xFF, k[2]) and f[3] in (0xFFFFFFFF, k[3])), None)
+            if k is not None:
+                ops.append({"k": "sd", "t": 0.0, "p": 1, "ch": "m", "e": [["offer", k[0], k[1], k[2], k[3], r.choice([3, INF_TTL])]]})
+                seen.append(k)
+        if seen:
+            k = r.choice(seen)
+            ops.append({"k": "sd", "t": round(t_start + r.uniform(0.0, lo if lo else hi / 4), 6) + 1e-5, "p": 1, "ch": "m", "e": [["offer", k[0], k[1], k[2], k[3], 0]]})
     ops.append({"k": "call", "t": t_start, "f": "start", "a": []})
     if r.random() < 0.15:
         # a service comes, goes and comes back within its first TTL, while the rounds for another one go on: the
